@@ -52,7 +52,7 @@ inductive SStep {α : Type} (n cap : Nat) : SS α → SS α → Prop
       SStep n cap s { s with oclosed := upd s.oclosed k true, h := if k + 1 < n then .close (k + 1) else .done }
   | read (s : SS α) (k : Nat) (v : α) (b : List α) (hk : k < n) (h1 : s.buf k = v :: b) (h2 : s.readerDone k = false) :
       SStep n cap s { s with buf := upd s.buf k b, reads := upd s.reads k (s.reads k ++ [v]) }
-  | readClosed (s : SS α) (k : Nat) (hk : k < n) (h1 : s.buf k = []) (h2 : s.oclosed k = true) :
+  | readClosed (s : SS α) (k : Nat) (hk : k < n) (h1 : s.buf k = []) (h2 : s.oclosed k = true) (h3 : s.readerDone k = false) :
       SStep n cap s { s with readerDone := upd s.readerDone k true }
 
 def initSS {α : Type} (input : List α) : SS α :=
@@ -119,7 +119,7 @@ inductive JStep {α : Type} (n cap : Nat) : SJ α → SJ α → Prop
       JStep n cap s { s with oClosed := true, hj := .done }
   | read (s : SJ α) (v : α) (b : List α) (h1 : s.ob = v :: b) (h2 : s.rdDone = false) :
       JStep n cap s { s with ob := b, rd := s.rd ++ [v] }
-  | readClosed (s : SJ α) (h1 : s.ob = []) (h2 : s.oClosed = true) :
+  | readClosed (s : SJ α) (h1 : s.ob = []) (h2 : s.oClosed = true) (h3 : s.rdDone = false) :
       JStep n cap s { s with rdDone := true }
 
 def initSJ {α : Type} (input : List α) : SJ α :=
